@@ -408,6 +408,21 @@ def r5_negation_not_dropped(ctx) -> None:
         r.ok("C01.R5", fe.qual, "templates are swapped only under a NOT ancestor and only in not-equals mode", fe.loc)
     else:
         r.violation("C01.R5", fe.qual, "negation = is_parent_not(cond) and self.convert_not_as_not_eq", "the swap is not tied to (NOT ancestor ∧ not-equals mode)", fe.loc)
+    # leaf handlers that synthesise an OR: inside the not-equals swap every alternative is rendered with the negated
+    # template, so the link between them has to become AND (not (a or b) = not a and not b)
+    for q, f in sorted(prog.funcs.items()):
+        if not q.startswith(TQ + ".convert_condition_field_eq_") and not q.startswith("sigma.conversion.base.Backend.convert_condition_field_eq_"):
+            continue
+        for c in (x for x in walk_no_nested(f.node) if isinstance(x, ast.Call) and call_name(x) == "ConditionOR"):
+            loc = f"{f.module.relpath}:{c.lineno}"
+            src = unparse(f.node)
+            dual = "ConditionAND" in src and ("negat" in src or "convert_not_as_not_eq" in src)
+            if dual:
+                r.ok("C01.R5", q, "the synthesised link operator depends on the negation context", loc)
+            else:
+                r.violation("C01.R5", q, f"ConditionOR(...) synthesised in {f.name} [convert_not_as_not_eq]",
+                            "in not-equals mode this handler runs with the negated templates swapped in and convert_condition_not drops the NOT, but the alternatives stay OR-linked: "
+                            "`not ip|cidr: 10.0.0.0/7` renders as (ip notstartswith \"10.\" or ip notstartswith \"11.\"), `not cmd|windash: -a` as (cmd!=\"-a\" or cmd!=\"/a\" …) — true for every event", loc)
     r.floor("C01.R5", 6)
 
 
